@@ -22,7 +22,7 @@ tech = {
  "C17": "taint dataflow in fmt bodies + dominator rule for zeroize calls in Drop (all-features facts), positive controls",
 }
 notes = {
- "C01": "T1-T4. Decides: one-step inversion from equal states for cbc/pcbc/ige/cfb/cfb8/ofb, parallel bodies == n-fold one-block (so multi-block driving inverts too), cts round trip per (k,d) case and cts bulk helpers for every width, buffered CFB pair incl. position, data-independence of keystream kernels (ctr x6, belt, ofb). Not decided: padded API (pad/unpad is dependency code), the dependency's block/byte drivers (T2).",
+ "C01": "T1-T4. Decides: one-step inversion from equal states for cbc/pcbc/ige/cfb/cfb8/ofb, parallel bodies == n-fold one-block (so multi-block driving inverts too), in-place == buffer-to-buffer for bytes and chaining state (so in-place driving inverts too), cts round trip per (k,d) case and cts bulk helpers for every width, buffered CFB pair incl. position, data-independence of keystream kernels (ctr x6, belt, ofb). Not decided: padded API (pad/unpad is dependency code), the dependency's block/byte drivers (T2).",
  "C02": "T1-T4. Both directions, arbitrary ciphertext (terms are functions of input and state only); parallel CBC decryption for symbolic width; in-place form; clones carry the chaining value.",
  "C03": "T1-T4. Block kernels, parallel CFB decryption, buffered CFB both paths incl. state import/export, CFB-8 shift register, in-place form; partial last block of one-shot CFB is dependency code (T2) - the kernel's output is byte-aligned linear in the input (checked under C15/C08).",
  "C04": "T1-T4; endianness of a flavour is read from its public type name (...BE/...LE). All block sizes that are a multiple of the counter size (symbolic chunk count).",
@@ -32,7 +32,7 @@ notes = {
  "C08": "T1-T4; the byte cursor of StreamCipherCoreWrapper is dependency code (T2): decided here are the repo-side obligations (keystream kernels data-independent, advancing by exactly one block, parallel == one-block; buffered CFB == stream definition incl. state invariant; empty piece identity; short/short, short/long, long/short composition).",
  "C09": "T1-T4. CTR resume is observational (same counter blocks at every offset).",
  "C10": "T1-T4. Only the block-position contract of the cores is decided; byte-offset arithmetic, try_current_pos overflow reporting and seek/apply interleavings live in cipher::StreamCipherCoreWrapper (not decided, T2).",
- "C11": "T1-T4. Known finding F2 (dependency): try_seek is not guarded by check_remaining. 'buffers untouched on failure' is decided only as dominance of the check over the first keystream use.",
+ "C11": "T1-T4. Known finding F2 (dependency): try_seek is not guarded by check_remaining. 'No counter value at two positions' is decided as: one-block kernel advances by one, parallel body == n-fold iterate of the one-block kernel as written (ctr x6, belt). 'buffers untouched on failure' is decided only as dominance of the check over the first keystream use.",
  "C12": "T1-T4. Exact within the abstraction: both aliasing modes are interpreted and compared; result must not mention the old output buffer.",
  "C13": "T1-T4. Gates, provided in-place and b2b wrappers (equal / longer / shorter output) interpreted for all six cts types; panic obligations of every interpreted body discharged; every body with a potential panic site must be interpreted. Not decided: padded decryption length errors and key/IV slice-length errors are produced inside cipher/crypto-common (only the sizes they compare against are decided).",
  "C14": "T1-T4, T2 for the byte-level wrapper. Construction from key bytes: no workspace type implements KeyInit/KeyIvInit itself (blanket impl).",
